@@ -105,15 +105,14 @@ def permuteAxes (f : Factor) (newScope : List Var) : Factor :=
 def permuteStates (f : Factor) (v : Var) (perm : List Nat) : Factor :=
   tabulate f.scope f.card (fun a => f.den (fun w => if w = v then perm.getD (a v) 0 else a w))
 
-/-- flat index of a maximal entry (first one) -/
-def argmaxIdx (f : Factor) : Nat :=
-  let rec go (i : Nat) (best : Nat) (bv : Rat) (l : List Rat) : Nat :=
-    match l with
-    | [] => best
-    | x :: xs => if bv < x then go (i+1) i x xs else go (i+1) best bv xs
-  match f.vals.toList with
+/-- index of the first maximal entry of a list (`numpy.argmax`) -/
+def argmaxList : List Rat → Nat
   | [] => 0
-  | x :: xs => go 1 0 x xs
+  | [_] => 0
+  | x :: y :: ys => let k := argmaxList (y :: ys); if x < (y :: ys).getD k 0 then k + 1 else 0
+
+/-- flat index of a maximal entry (first one) -/
+def argmaxIdx (f : Factor) : Nat := argmaxList f.vals.toList
 
 /-- decode a flat index into (variable, state index) pairs: `DiscreteFactor.assignment` -/
 def assignment (f : Factor) (idx : Nat) : List (Var × Nat) :=
